@@ -48,6 +48,13 @@ def classify(case, verdict, detail, eng_out):
         return 'nested-expression:inner-measures-collapsed-onto-the-single-output-measure'
     if nested and 'ifd' in ops and ops[-1] != 'ifd' and verdict in ('DISAGREE:value', 'DISAGREE:keys', 'DISAGREE:engine-error'):
         return 'nested-expression:dataset-level-if-inside-another-operator'
+    if verdict == 'DISAGREE:value' and any(o in ('floor', 'ceil', 'round', 'trunc') for o in ops):
+        big = max([abs(v) for d in case.get('env', {}).values() for row in d['rows'] for v in row
+                   if isinstance(v, int) and not isinstance(v, bool)] or [0])
+        if big >= 2 ** 26:
+            # ceil / floor / round / trunc are computed on DOUBLE: an Integer (or a product of Integers) beyond 2^53 loses its
+            # low digits there (the engine's own choice of SQL type; recorded once)
+            return 'integer-beyond-2^53-through-ceil-floor-round-trunc:computed-on-double'
     if verdict == 'DISAGREE:value':
         last_float = max([i for i, o in enumerate(ops) if o in FLOAT_OPS], default=-1)
         if last_float >= 0 and any(o in CMP_OPS or o in ('filter', 'mod', 'zip_mod', 'ceil', 'floor') for o in ops[last_float + 1:]):
@@ -112,7 +119,8 @@ def report(ck, results, prop_ops=None, min_agree=10):
         ck.violation(key, {'script': c['vtl'], 'structures': G.structures(c['env']),
                            'data': {k: [[str(x) if x is not None else None for x in r] for r in x['rows']] for k, x in c['env'].items()},
                            'model_request': G.request(c), 'model_answer': a, 'engine': [str(x)[:600] for x in e],
-                           'verdict': v, 'detail': str(d)[:600], 'occurrences': len(lst)},
+                           'verdict': v, 'detail': str(d)[:600], 'occurrences': len(lst),
+                           'ops': list(c.get('ops', [])), 'flat': bool(c.get('flat')), 'depth': c.get('depth', 0)},
                      '%s: %s | model %s | engine %s' % (v, c['vtl'][:140], a[:100], str(e[1:3])[:140]))
     if hist['agree'] < min_agree:
         ck.unproved('correspondence:' + ck.pid, 'only %d of %d cases could be compared (engine or model rejects the rest): %s' % (hist['agree'], len(results), dict(hist)))
@@ -147,7 +155,7 @@ def replay(ck):
                     vals.append(v)
             rows.append(tuple(vals))
         env[d['name']] = {'ids': ids, 'meas': meas, 'rows': rows}
-    case = {'env': env, 'vtl': r['script'], 'ops': [], 'flat': False, 'depth': 0}
+    case = {'env': env, 'vtl': r['script'], 'ops': r.get('ops', []), 'flat': r.get('flat', False), 'depth': r.get('depth', 0)}
     ans = ck.driver('Sem', [r['model_request']])[0]
     out = R.run_engine([case], jobs=1)[0]
     v, d = R.compare(case, ans, out)
